@@ -259,6 +259,12 @@ func runShape(c *core.Ctx) {
 			// Error() is defined by the formatter: nothing to compare.
 		case ShConst:
 		}
+		if bad == "" && sh.RetInDetail {
+			bad = "the formatter returns from inside the p.Detail() region: the short (%v) and verbose (%+v) renderings take different decisions about the cause's text"
+		}
+		if bad == "" && sh.MsgTypeWhy != "" {
+			bad = sh.MsgTypeWhy
+		}
 		if bad != "" {
 			c.Fail(et.Name(), sh.Formatter.Pos(), bad, sh.String())
 		} else {
